@@ -1533,3 +1533,260 @@ add("classifyLabelWriteBack", "Pca", ["C18"], "acryo/loader/_base.py", "const", 
                            "mole = self.molecules.copy()",
                            "mole.features = mole.features.with_columns(pl.Series(label_name, clf._labels))",
                            "new = self.replace(molecules=mole)", "return ClassificationResult(new, clf)")))
+
+
+# ==========================================================================================
+# C19  image pipelines: operator semantics, composition, currying, nm -> px conversions
+# ==========================================================================================
+_CLS = "acryo/pipe/_classes.py"
+_CUR = "acryo/pipe/_curry.py"
+_IMR = "acryo/pipe/_imread.py"
+_MSK = "acryo/pipe/_masking.py"
+_TRF = "acryo/pipe/_transform.py"
+
+_CMP_HELPERS = {"_lt": ast.Lt, "_le": ast.LtE, "_gt": ast.Gt, "_ge": ast.GtE}
+_CMP_UFUNC = {"_lt": "less", "_le": "less_equal", "_gt": "greater", "_ge": "greater_equal"}
+
+
+class _InlineCmp(ast.NodeTransformer):
+    """`_lt(A, B)` -> `A < B` (the helper bodies are checked by `pipeCompareHelpers`)."""
+
+    def visit_Call(self, node):
+        self.generic_visit(node)
+        fn = ast.unparse(node.func)
+        if fn in _CMP_HELPERS and len(node.args) == 2:
+            return ast.Compare(node.args[0], [_CMP_HELPERS[fn]()], [node.args[1]])
+        return node
+
+
+def _op_lambda(cls, dunder, nth):
+    def sel(t):
+        fn = func(t, f"{cls}.{dunder}")
+        lams = [n for n in ordered(fn) if isinstance(n, ast.Lambda)]
+        if len(lams) <= nth:
+            raise SelectorMiss(f"{cls}.{dunder}: lambda #{nth} not found")
+        # which branch does lambda #nth sit in?  branches are in the order
+        # (same class, [provider,] anything else)
+        body = _InlineCmp().visit(copy.deepcopy(lams[nth].body))
+        ast.fix_missing_locations(body)
+        return body
+    return sel
+
+
+def _branch_order(t):
+    """isinstance tests guard the lambdas in the expected order in every operator method."""
+    for cls, kinds in (("ImageProvider", ["ImageProvider"]), ("ImageConverter", ["ImageConverter", "ImageProvider"])):
+        for d in ("__add__", "__sub__", "__mul__", "__truediv__", "__eq__", "__ne__", "__lt__", "__le__", "__gt__", "__ge__"):
+            fn = func(t, f"{cls}.{d}")
+            tests = [ast.unparse(n.test) for n in ordered(fn) if isinstance(n, ast.If)
+                     and "isinstance" in ast.unparse(n.test)]
+            if tests != [f"isinstance(other, {k})" for k in kinds]:
+                raise SelectorMiss(f"{cls}.{d}: branches {tests}")
+            lams = [n for n in ordered(fn) if isinstance(n, ast.Lambda)]
+            if len(lams) != len(kinds) + 1:
+                raise SelectorMiss(f"{cls}.{d}: {len(lams)} lambdas")
+            want_args = ["scale"] if cls == "ImageProvider" else ["x", "scale"]
+            for lam in lams:
+                if [a.arg for a in lam.args.args] != want_args:
+                    raise SelectorMiss(f"{cls}.{d}: lambda arguments")
+            src = ast.unparse(fn)
+            if src.count("self.__class__(") != len(kinds) + 1:
+                raise SelectorMiss(f"{cls}.{d}: result class")
+            if d == "__truediv__" and "if np.isscalar(other) and other == 0: raise ZeroDivisionError" not in \
+                    src.replace("\n", " ").replace("    ", "").replace("('Cannot divide by zero.')", ""):
+                raise SelectorMiss(f"{cls}.{d}: zero check")
+    return True
+
+
+add("pipeBranchOrder", "Pipe", ["C19"], _CLS, "const", [], pattern(_branch_order))
+
+_OPS = [("add", "__add__"), ("sub", "__sub__"), ("mul", "__mul__"), ("div", "__truediv__"),
+        ("eq", "__eq__"), ("ne", "__ne__"), ("lt", "__lt__"), ("le", "__le__"), ("gt", "__gt__"), ("ge", "__ge__")]
+for _nm, _d in _OPS:
+    # provider op provider / provider op scalar
+    add(f"pP_{_nm}", "Pipe", ["C19"], _CLS, "expr", [("a", R), ("b", R)], _op_lambda("ImageProvider", _d, 0),
+        subst={"self(scale)": "a", "other(scale)": "b"}, want="Rat")
+    add(f"pS_{_nm}", "Pipe", ["C19"], _CLS, "expr", [("a", R), ("s", R)], _op_lambda("ImageProvider", _d, 1),
+        subst={"self(scale)": "a", "other": "s"}, want="Rat")
+    # converter op converter / converter op provider / converter op scalar
+    add(f"cC_{_nm}", "Pipe", ["C19"], _CLS, "expr", [("a", R), ("b", R)], _op_lambda("ImageConverter", _d, 0),
+        subst={"self(x, scale)": "a", "other(x, scale)": "b"}, want="Rat")
+    add(f"cP_{_nm}", "Pipe", ["C19"], _CLS, "expr", [("a", R), ("b", R)], _op_lambda("ImageConverter", _d, 1),
+        subst={"self(x, scale)": "a", "other(scale)": "b"}, want="Rat")
+    add(f"cS_{_nm}", "Pipe", ["C19"], _CLS, "expr", [("a", R), ("s", R)], _op_lambda("ImageConverter", _d, 2),
+        subst={"self(x, scale)": "a", "other": "s"}, want="Rat")
+for _nm, _d in (("sub", "__rsub__"), ("div", "__rtruediv__")):
+    add(f"pR_{_nm}", "Pipe", ["C19"], _CLS, "expr", [("a", R), ("s", R)], _op_lambda("ImageProvider", _d, 0),
+        subst={"self(scale)": "a", "other": "s"}, want="Rat")
+    add(f"cR_{_nm}", "Pipe", ["C19"], _CLS, "expr", [("a", R), ("s", R)], _op_lambda("ImageConverter", _d, 0),
+        subst={"self(x, scale)": "a", "other": "s"}, want="Rat")
+add("pNeg", "Pipe", ["C19"], _CLS, "expr", [("a", R)], _op_lambda("ImageProvider", "__neg__", 0),
+    subst={"self(scale)": "a"}, want="Rat")
+add("cNeg", "Pipe", ["C19"], _CLS, "expr", [("a", R)], _op_lambda("ImageConverter", "__neg__", 0),
+    subst={"self(x, scale)": "a"}, want="Rat")
+
+
+def _reflected_comm(t):
+    for d, o in (("__radd__", "+"), ("__rmul__", "*")):
+        if _unparse_norm(ret(func(t, f"_Pipeline.{d}"))) != f"self{o}other":
+            raise SelectorMiss(d)
+    for cls in ("ImageProvider", "ImageConverter"):
+        for d in ("__rsub__", "__rtruediv__"):
+            func(t, f"{cls}.{d}")
+    # no reflected comparison methods: Python swaps the operands and uses the mirrored operator
+    for n in ast.walk(t):
+        if isinstance(n, ast.FunctionDef) and n.name in ("__rlt__", "__rgt__"):
+            raise SelectorMiss("unexpected reflected comparison")
+    return True
+
+
+add("pipeReflectedCommutative", "Pipe", ["C19"], _CLS, "const", [], pattern(_reflected_comm))
+
+
+def _cmp_helpers(t):
+    for h, uf in _CMP_UFUNC.items():
+        fn = func(t, h)
+        if [a.arg for a in fn.args.args] != ["a", "b"] or \
+                _unparse_norm(ret(fn)) != f"np.{uf}(a,b).astype(np.float32)":
+            raise SelectorMiss(h)
+    return True
+
+
+add("pipeCompareHelpers", "Pipe", ["C19"], _CLS, "const", [], pattern(_cmp_helpers))
+
+
+def _compose(t):
+    fn = func(t, "ImageConverter.compose")
+    src = ast.unparse(fn)
+    _has(src, "if isinstance(other, ImageProvider): fn = lambda scale: self(other(scale), scale)",
+         "elif isinstance(other, ImageConverter): fn = lambda x, scale: self(other(x, scale), scale)",
+         "else: raise TypeError", "return other.__class__(fn)")
+    cls = func(t, "ImageConverter")
+    if not any(isinstance(n, ast.Assign) and ast.unparse(n) == "__matmul__ = compose" for n in cls.body):
+        raise SelectorMiss("__matmul__ is not compose")
+    _has(ast.unparse(func(t, "ImageProvider.provide")), "out = self._func(scale)", "return out")
+    _has(ast.unparse(func(t, "ImageConverter.convert")), "out = self._func(image, scale)", "return out")
+    _has(ast.unparse(func(t, "ImageProvider.__call__")), "return self.provide(scale)")
+    _has(ast.unparse(func(t, "ImageConverter.__call__")), "return self.convert(image, scale)")
+    _has(ast.unparse(func(t, "ImageConverter.with_scale")), "return self(img, scale)")
+    return True
+
+
+add("pipeCompose", "Pipe", ["C19"], _CLS, "const", [], pattern(_compose))
+
+
+def _curry(t):
+    _has(ast.unparse(func(t, "provider_function")), "_fn = _assert_1_arg(fn)",
+         "return ImageProvider(lambda scale: _fn(scale, *args, **kwargs))")
+    _has(ast.unparse(func(t, "converter_function")), "_fn = _assert_2_args(fn)",
+         "return ImageConverter(lambda img, scale: _fn(img, scale, *args, **kwargs))")
+    _has(ast.unparse(func(t, "_assert_1_arg")), "if nargs == 0: out = lambda x: func()", "else: return func")
+    _has(ast.unparse(func(t, "_assert_2_args")), "if nargs == 0: out = lambda x0, x1: func()",
+         "elif nargs == 1: out = lambda x0, x1: func(x0)", "else: return func")
+    return True
+
+
+add("pipeCurry", "Pipe", ["C19"], _CUR, "const", [], pattern(_curry))
+
+
+# ---- nm -> px conversions -------------------------------------------------------------------
+def _radius_px(t):
+    fn = copy.deepcopy(func(t, "_get_radius_px"))
+    body = [st for st in fn.body if not isinstance(st, ast.Try)]
+    tries = [st for st in fn.body if isinstance(st, ast.Try)]
+    if len(tries) != 1 or _unparse_norm(tries[0].body[0]) != "radius=float(radius)":
+        raise SelectorMiss("_get_radius_px: validation changed")
+    fn.body = body
+    return fn
+
+
+add("getRadiusPx", "Pipe", ["C19"], _MSK, "func", [("radius", R), ("scale", R)], _radius_px, ret="Int")
+add("structureHas", "Pipe", ["C19"], _MSK, "expr", [("r", I), ("zz", I), ("yy", I), ("xx", I)],
+    lambda t: ret(func(t, "_get_structure")))
+add("structureSize", "Pipe", ["C19"], _MSK, "expr", [("r", I)], lambda t: assign_rhs(func(t, "_get_structure"), "size"))
+
+
+def _morph(t):
+    d = ast.unparse(func(t, "dilation"))
+    _has(d, "r = _get_radius_px(radius, scale)", "if r == 0: return img", "structure = _get_structure(r)",
+         "if radius < 0: out = ndi.binary_erosion(img, structure=structure, border_value=False)",
+         "elif radius > 0: out = ndi.binary_dilation(img, structure=structure, border_value=False)")
+    c = ast.unparse(func(t, "closing"))
+    _has(c, "r = _get_radius_px(radius, scale)", "if r == 0: return img", "structure = _get_structure(r)",
+         "if radius < 0: out = ndi.binary_opening(img, structure=structure, border_value=False)",
+         "elif radius > 0:")
+    return True
+
+
+add("pipeMorphStructure", "Pipe", ["C19"], _MSK, "const", [], pattern(_morph))
+
+
+def _closing_border(t):
+    """closing = erosion(border_value=True) of dilation(border_value=False)"""
+    fn = func(t, "closing")
+    er = [c for c in calls(fn, "ndi.binary_erosion")]
+    if len(er) != 1:
+        raise SelectorMiss("closing: erosion step")
+    bv = kwarg(er[0], "border_value")
+    inner = er[0].args[0]
+    if not (isinstance(inner, ast.Call) and ast.unparse(inner.func) == "ndi.binary_dilation"
+            and _unparse_norm(inner.args[0]) == "img" and ast.unparse(kwarg(inner, "border_value")) == "False"
+            and ast.unparse(kwarg(inner, "structure")) == "structure" and ast.unparse(kwarg(er[0], "structure")) == "structure"):
+        raise SelectorMiss("closing: dilation step")
+    return ast.unparse(bv) == "True"
+
+
+add("closingErodesWithTrueBorder", "Pipe", ["C19"], _MSK, "const", [], pattern(_closing_border))
+add("smoothExponent", "Pipe", ["C19"], _MSK, "expr", [("dist", R), ("sigma", R), ("scale", R)],
+    lambda t: call(func(t, "gaussian_smooth"), "np.exp").args[0])
+add("pipeSmoothStructure", "Pipe", ["C19"], _MSK, "const", [],
+    pattern(lambda t: _has(ast.unparse(func(t, "gaussian_smooth")), "if sigma == 0: return img.astype(np.float32)",
+                           "if sigma < 0: raise ValueError", "if img.all() or not img.any(): return img.astype(np.float32)",
+                           "img = ~img", "dist: NDArray[np.float32] = ndi.distance_transform_edt(img)",
+                           "blurred_mask = np.exp(-dist ** 2 / 2 / (sigma / scale) ** 2, dtype=np.float32)",
+                           "return blurred_mask")))
+add("filterSigmaPx", "Pipe", ["C19"], _TRF, "expr", [("sigma", R), ("scale", R)],
+    lambda t: call(func(t, "gaussian_filter"), "ndi.gaussian_filter").args[1])
+add("shiftPx", "Pipe", ["C19"], _TRF, "expr", [("shift", R), ("scale", R)],
+    lambda t: assign_rhs(func(t, "shift"), "shift_px"), subst={"np.asarray(shift)": "shift"})
+add("pipeShiftUsesPx", "Pipe", ["C19"], _TRF, "const", [],
+    pattern(lambda t: _has(ast.unparse(func(t, "shift")), "return ndi_shift(img, shift_px,")))
+
+# ---- providers ------------------------------------------------------------------------------
+def _untuple(n):
+    """per-axis view of `tuple(<array expression>)`"""
+    if isinstance(n, ast.Call) and ast.unparse(n.func) == "tuple" and len(n.args) == 1:
+        return n.args[0]
+    raise SelectorMiss("expected tuple(...)")
+
+
+add("gaussSigmaPx", "Pipe", ["C19"], _IMR, "expr", [("sigma", R), ("scale", R)],
+    lambda t: assign_rhs(func(t, "from_gaussian"), "sigma_px"), subst={"_as_3_array(sigma)": "sigma"})
+add("gaussShapePx", "Pipe", ["C19"], _IMR, "lets", [("shape", R), ("scale", R)],
+    lambda t: ([("shape_subpix", assign_rhs(func(t, "from_gaussian"), "shape_subpix")),
+                ("shape_px", _untuple(assign_rhs(func(t, "from_gaussian"), "shape_px")))], ["shape_px"]),
+    subst={"_as_3_array(shape)": "shape"})
+add("gaussCenter", "Pipe", ["C19"], _IMR, "expr", [("shape_px", I), ("shift", R), ("scale", R)],
+    lambda t: assign_rhs(func(t, "from_gaussian"), "center_subpix"),
+    subst={"np.array(shape_px)": "shape_px", "np.array(shift)": "shift"}, want="Rat")
+add("gaussTerm", "Pipe", ["C19"], _IMR, "expr", [("xx", R), ("c", R), ("sg", R)],
+    lambda t: first(ret(func(t, "from_gaussian")), ast.GeneratorExp).elt)
+add("gaussIsSumOfSquares", "Pipe", ["C19"], _IMR, "const", [],
+    pattern(lambda t: _unparse_norm(ret(func(t, "from_gaussian"))) ==
+            "np.exp(-0.5*sum((((xx-c)/sg)**2forxx,c,sginzip(crds,center_subpix,sigma_px))))"
+            and _has(ast.unparse(func(t, "from_gaussian")), "crds = np.indices(shape_px, dtype=np.float32)")))
+add("fromArrayRatio", "Pipe", ["C19"], _IMR, "expr", [("original_scale", R), ("scale", R)],
+    lambda t: assign_rhs(func(t, "from_array"), "ratio"))
+add("fromArrayKeeps", "Pipe", ["C19"], _IMR, "expr", [("ratio", R), ("tol", R)],
+    lambda t: first(func(t, "from_array"), ast.If, lambda n: "tol" in ast.unparse(n.test)).test)
+add("fromFileRatio", "Pipe", ["C19"], _IMR, "expr", [("original_scale", R), ("scale", R)],
+    lambda t: assign_rhs(func(t, "from_file"), "ratio"))
+add("fromFileKeeps", "Pipe", ["C19"], _IMR, "expr", [("ratio", R), ("tol", R)],
+    lambda t: first(func(t, "from_file"), ast.If, lambda n: "tol" in ast.unparse(n.test)).test)
+add("pipeRescaleStructure", "Pipe", ["C19"], _IMR, "const", [],
+    pattern(lambda t: _has(ast.unparse(func(t, "from_array")), "if original_scale is not None and original_scale <= 0: raise ValueError",
+                           "if img.ndim != 3: raise ValueError", "if abs(ratio - 1) < tol: return img",
+                           "out = zoom(img, ratio, order=3, prefilter=True, mode='reflect')")
+            and _has(ast.unparse(func(t, "from_file")), "if abs(ratio - 1) < tol: return img",
+                     "return zoom(img, ratio, order=3, prefilter=True, mode='reflect')")
+            and _has(ast.unparse(func(t, "from_arrays")), "return [from_array(img, original_scale, tol).provide(scale) for img in imgs]")))
